@@ -157,27 +157,39 @@ def modeOpt : Option (OptVal α) → ModeOpt
       | _ => .bad
     else .skip
 
-/-- the optimizer calls `setup_optimizer` makes for one parameter; `none` = unsupported shape -/
+def fitOps (n : String) (r : Rec α) : List (Op String α) :=
+  [if truthy r.fit then .enableFit n else .disableFit n]
+
+def factorOps (n : String) : PairOpt α → List (Op String α)
+  | .pair a b => [.setFactorBoundary n a b]
+  | _ => []
+
+def boundsOps (n : String) : PairOpt α → List (Op String α)
+  | .pair a b => [.setBoundary n a b]
+  | _ => []
+
+def modeOps (n : String) : ModeOpt → List (Op String α)
+  | .mode s => [.setMode n s]
+  | _ => []
+
+def priorOps (n : String) : Option (Prior α) → List (Op String α)
+  | some p => [.setPrior n p]
+  | none => []
+
+def PairOpt.isBad : PairOpt α → Bool
+  | .bad => true
+  | _ => false
+
+def ModeOpt.isBad : ModeOpt → Bool
+  | .bad => true
+  | _ => false
+
+/-- the optimizer calls `setup_optimizer` makes for one parameter, in the code's order: enable_fit | disable_fit,
+    factor, bounds, mode, prior; `none` = unsupported value shape -/
 def recOps (n : String) (r : Rec α) : Option (List (Op String α)) :=
-  let fitOp : Op String α := if truthy r.fit then .enableFit n else .disableFit n
-  match pairOpt r.factor, pairOpt r.bounds, modeOpt r.mode with
-  | .bad, _, _ => none
-  | _, .bad, _ => none
-  | _, _, .bad => none
-  | fa, bo, mo =>
-    let fops : List (Op String α) := match fa with
-      | .pair a b => [.setFactorBoundary n a b]
-      | _ => []
-    let bops : List (Op String α) := match bo with
-      | .pair a b => [.setBoundary n a b]
-      | _ => []
-    let mops : List (Op String α) := match mo with
-      | .mode s => [.setMode n s]
-      | _ => []
-    let pops : List (Op String α) := match r.prior with
-      | some p => [.setPrior n p]
-      | none => []
-    some (fitOp :: fops ++ bops ++ mops ++ pops)
+  if (pairOpt r.factor).isBad || (pairOpt r.bounds).isBad || (modeOpt r.mode).isBad then none
+  else some (fitOps n r ++ factorOps n (pairOpt r.factor) ++ boundsOps n (pairOpt r.bounds) ++ modeOps n (modeOpt r.mode)
+             ++ priorOps n r.prior)
 
 /-- all calls of the fitting loop, parameters in order of first mention -/
 def fittingOps : List (String × Rec α) → Option (List (Op String α))
